@@ -100,17 +100,13 @@ impl<C: Config, Q: Query> Snapshot<C, Q> {
         caller_information: &CallerInformation,
         lock_guard: ComputingLockGuard<C>,
     ) -> Option<(ComputingLockGuard<C>, Self)> {
-        // if the caller is backward projection propagation, we always
-        // recompute since the projection query have already told us
-        // that the value is required to be recomputed.
-        if matches!(
-            caller_information.kind(),
-            CallerKind::BackwardProjectionPropagation
-        ) {
-            return Some((lock_guard, self));
-        }
-
-        // continue normal path ...
+        // A backward projection propagation only tells us that *something*
+        // below this projection has changed since it was last verified, not
+        // that one of the values this projection has read differs now (the
+        // callee may have changed back to the value observed here, or only
+        // its transitive firewall callees may differ). The forward edges are
+        // checked like for any other caller, pedantically: every callee is
+        // repaired and compared whatever the dirty marks say.
         let recompute = self
             .recompute_decision_based_on_forward_edges(
                 caller_information,
@@ -461,6 +457,16 @@ impl<C: Config, Q: Query> Snapshot<C, Q> {
         }
     }
 
+    /// Whether the callees must be repaired and compared regardless of the
+    /// dirty marks on the edges leading to them.
+    fn is_pedantic_repair(caller_information: &CallerInformation) -> bool {
+        match caller_information.kind() {
+            CallerKind::Query(query_caller) => query_caller.pedantic_repair(),
+            CallerKind::BackwardProjectionPropagation => true,
+            _ => false,
+        }
+    }
+
     #[allow(clippy::too_many_lines)]
     async fn recompute_decision_based_on_forward_edges(
         &mut self,
@@ -490,9 +496,7 @@ impl<C: Config, Q: Query> Snapshot<C, Q> {
                         caller_information.timestamp(),
                         caller_information.active_computation_guard(),
                         computing_lock_guard.query_computing(),
-                        caller_information.get_query_caller().is_some_and(
-                            super::caller::QueryCaller::pedantic_repair,
-                        ),
+                        Self::is_pedantic_repair(caller_information),
                     )
                     .await;
 
@@ -546,9 +550,7 @@ impl<C: Config, Q: Query> Snapshot<C, Q> {
                         let computing_lock_guard =
                             computing_lock_guard.query_computing().clone();
                         let pedantic_repair =
-                            caller_information.get_query_caller().is_some_and(
-                                super::caller::QueryCaller::pedantic_repair,
-                            );
+                            Self::is_pedantic_repair(caller_information);
 
                         chunk_handles.spawn(async move {
                             Self::check_callee_chunked(
